@@ -1738,4 +1738,140 @@ example : ∃ res, cmux true 1 staleG.base2k 3 ([[[1], [2], [3]], [[0], [1], [0]
         subst h0; rfl)
   exact ⟨res, h1, h2⟩
 
+/-- **`cswap_swaps_with_noise`** — `Cswap::cswap(res_a, res_b, s)` stated on the INPUTS `(res_a, res_b, bit)`: both accumulator widths, every
+`dsize`, rank and limb count `rs ≤ min(size, dnum·dsize)`.  If the GGSW encrypts the bit, `res_a'` decrypts to `if bit then res_b else res_a` and
+`res_b'` to `if bit then res_a else res_b`, each plus `±2^{b·rs}·epErr` (the gadget error of `d = res_b − res_a`, opposite signs) and its own
+rounding `‖En‖_∞ ≤ (1+Σ‖s_i‖₁)·normTol`. -/
+theorem cswap_swaps_with_noise {N : Nat} (big128 : Bool) (rs : Nat) (ra rbb : List Col) (g : EpGGSW) (res0 tmp0 : List Col) (sk : List Poly)
+    (bit : Bool) (Hin Dm : Int)
+    (hgn : g.n = N) (hgw : g.wf = true) (has : shapeOk N (g.rank + 1) rs ra = true) (hbs : shapeOk N (g.rank + 1) rs rbb = true)
+    (hgb1 : 1 ≤ g.base2k) (hgb : g.base2k ≤ 62)
+    (hH0 : 0 ≤ Hin) (hH : 2 * Hin < 2 ^ 62) (hDm : 0 ≤ Dm)
+    (hab : ∀ c ∈ ra, ∀ l ∈ c, ∀ x ∈ l, |x| ≤ Hin) (hbb : ∀ c ∈ rbb, ∀ l ∈ c, ∀ x ∈ l, |x| ≤ Hin)
+    (hadm : prodAdmissible (bitsOf big128) g.dsize (g.rank + 1) g.dnum N (Hin + Hin) Dm Hin)
+    (hgd : ∀ row ∈ g.cells, ∀ c ∈ row, ∀ l ∈ c, ∀ x ∈ l, |x| ≤ Dm)
+    (σ : ℕ → Ks.R N) (E : ℕ → ℕ → Ks.R N)
+    (hd : 1 ≤ g.dsize) (hN : 0 < N) (h1rs : 1 ≤ rs)
+    (h0 : shapeOk g.n (g.rank + 1) g.size res0 = true) (ht : shapeOk g.n (g.rank + 1) g.size tmp0 = true)
+    (hM : ∀ j q, (g.toPMat.entry j q).length = N) (hS : g.dnum * g.dsize ≤ g.size)
+    (hkey : ∀ i, i < g.rank + 1 → ∀ r, r < g.dnum →
+      Gadget.val ((2 : Ks.R N) ^ g.base2k) g.size (Ks.keyPhase N sk g.toPMat i r)
+        = (if bit then 1 else 0) * σ i * ((2 : Ks.R N) ^ g.base2k) ^ (g.size - (r + 1) * g.dsize) + E i r)
+    (hcov1 : rs ≤ g.size) (hcov2 : rs ≤ g.dnum * g.dsize)
+    (hsk : g.rank ≤ sk.length) (hσ0 : σ 0 = 1) (hσ : ∀ i, i < g.rank → σ (i + 1) = Ks.ι N (sk.getD i [])) :
+    ∃ xa xb, cswap big128 N g.base2k ra rbb g res0 tmp0 = .ok (xa, xb) ∧
+      C02L.GWF N (Ks.mkCt g.base2k N xa) ∧ C02L.GWF N (Ks.mkCt g.base2k N xb) ∧
+      (∃ En Q : Poly, En.length = N ∧ Q.length = N ∧
+        normInf En ≤ (1 + C02L.snorm (min g.rank sk.length) sk) * C02.normTol (g.base2k * rs) (g.base2k * g.size) ∧
+        (2 : Ks.R N) ^ (g.base2k * g.size) * Ks.ι N (C02L.valP g.base2k N (Core.Ops.phase sk (Ks.mkCt g.base2k N xa)))
+          = (2 : Ks.R N) ^ (g.base2k * g.size) * Ks.ι N (C02L.valP g.base2k N (Core.Ops.phase sk (Ks.mkCt g.base2k N (if bit then rbb else ra))))
+            + (2 : Ks.R N) ^ (g.base2k * rs) * epErr N sk (glweSubSameRank N rs rbb ra) g ((2 : Ks.R N) ^ g.base2k) E
+            + Ks.ι N En + (2 : Ks.R N) ^ (g.base2k * rs + g.base2k * g.size) * Ks.ι N Q) ∧
+      (∃ En Q : Poly, En.length = N ∧ Q.length = N ∧
+        normInf En ≤ (1 + C02L.snorm (min g.rank sk.length) sk) * C02.normTol (g.base2k * rs) (g.base2k * g.size) ∧
+        (2 : Ks.R N) ^ (g.base2k * g.size) * Ks.ι N (C02L.valP g.base2k N (Core.Ops.phase sk (Ks.mkCt g.base2k N xb)))
+          = (2 : Ks.R N) ^ (g.base2k * g.size) * Ks.ι N (C02L.valP g.base2k N (Core.Ops.phase sk (Ks.mkCt g.base2k N (if bit then ra else rbb))))
+            - (2 : Ks.R N) ^ (g.base2k * rs) * epErr N sk (glweSubSameRank N rs rbb ra) g ((2 : Ks.R N) ^ g.base2k) E
+            + Ks.ι N En + (2 : Ks.R N) ^ (g.base2k * rs + g.base2k * g.size) * Ks.ι N Q) := by
+  obtain ⟨hal, haw⟩ := wf_of_shapeOk N _ _ ra has
+  obtain ⟨hbl, hbw⟩ := wf_of_shapeOk N _ _ rbb hbs
+  have hH62 : Hin < 2 ^ 62 := by linarith
+  have h0a : 0 < ra.length := by omega
+  have h0b : 0 < rbb.length := by omega
+  have ha0 : (ra.getD 0 []).length = rs := by
+    rw [List.getD_eq_getElem?_getD, List.getElem?_eq_getElem h0a]; exact (haw _ (List.getElem_mem h0a)).1
+  have hb0 : (rbb.getD 0 []).length = rs := by
+    rw [List.getD_eq_getElem?_getD, List.getElem?_eq_getElem h0b]; exact (hbw _ (List.getElem_mem h0b)).1
+  have hmax : max (ra.getD 0 []).length (rbb.getD 0 []).length = rs := by rw [ha0, hb0]; exact Nat.max_self _
+  have hg : (g.n == N && g.wf && shapeOk N (g.rank + 1) (ra.getD 0 []).length ra && shapeOk N (g.rank + 1) (rbb.getD 0 []).length rbb) = true := by
+    rw [ha0, hb0]; simp [hgn, hgw, has, hbs]
+  -- the difference d = rbb − ra
+  have hdeq := glweSub_exact N rs rbb ra Hin hH62 (by rw [hal, hbl]) hbw haw hbb hab
+  rw [hbl] at hdeq
+  have hdget : ∀ i, i < g.rank + 1 → C02L.ColWF N rs (C02L.colAdd (rbb.getD i []) ((ra.getD i []).map polyNeg)) ∧
+      ∀ l ∈ C02L.colAdd (rbb.getD i []) ((ra.getD i []).map polyNeg), ∀ x ∈ l, |x| ≤ Hin + Hin := by
+    intro i hi
+    have hia : i < ra.length := by omega
+    have hib : i < rbb.length := by omega
+    have e1 : rbb.getD i [] = rbb[i] := by simp [List.getD_eq_getElem?_getD, List.getElem?_eq_getElem hib]
+    have e2 : ra.getD i [] = ra[i] := by simp [List.getD_eq_getElem?_getD, List.getElem?_eq_getElem hia]
+    rw [e1, e2]
+    exact ⟨C02L.colAdd_wf (hbw _ (List.getElem_mem hib)) (neg_col_wf (haw _ (List.getElem_mem hia))),
+      colAdd_bound _ _ Hin Hin (hbb _ (List.getElem_mem hib)) (neg_col_bound _ Hin (hab _ (List.getElem_mem hia)))⟩
+  have hdw : ∀ c ∈ glweSubSameRank N rs rbb ra, C02L.ColWF N rs c := by
+    rw [hdeq]; intro c hc
+    obtain ⟨i, hi, rfl⟩ := List.mem_map.mp hc
+    exact (hdget i (List.mem_range.mp hi)).1
+  have hdb : ∀ c ∈ glweSubSameRank N rs rbb ra, ∀ l ∈ c, ∀ x ∈ l, |x| ≤ Hin + Hin := by
+    rw [hdeq]; intro c hc
+    obtain ⟨i, hi, rfl⟩ := List.mem_map.mp hc
+    exact (hdget i (List.mem_range.mp hi)).2
+  have hdl : (glweSubSameRank N rs rbb ra).length = g.rank + 1 := by rw [hdeq]; simp
+  have hd0 : ((glweSubSameRank N rs rbb ra).getD 0 []).length = rs := by
+    have h0' : 0 < (glweSubSameRank N rs rbb ra).length := by rw [hdl]; omega
+    rw [List.getD_eq_getElem?_getD, List.getElem?_eq_getElem h0']; exact (hdw _ (List.getElem_mem h0')).1
+  have haD : shapeOk g.n (g.rank + 1) ((glweSubSameRank N rs rbb ra).getD 0 []).length (glweSubSameRank N rs rbb ra) = true := by
+    rw [hgn, hd0]
+    unfold shapeOk
+    simp only [Bool.and_eq_true, beq_iff_eq, List.all_eq_true]
+    exact ⟨hdl, fun c hc => ⟨(hdw c hc).1, fun l hl => (hdw c hc).2 l hl⟩⟩
+  have hPb := ep_headroom N (glweSubSameRank N rs rbb ra) g res0 tmp0 (Hin + Hin) Dm (by linarith) hDm hd hgn haD h0 ht hdb hgd
+  unfold prodAdmissible at hadm
+  obtain ⟨xa, xb, hcall, hwa, hwb, ⟨EnA, QA, hEA, hQA, hnA, heA⟩, ⟨EnB, QB, hEB, hQB, hnB, heB⟩⟩ := cswap_decrypts big128 g.base2k ra rbb g res0 tmp0 sk
+    (prodBound g.dsize (g.rank + 1) g.dnum N (Hin + Hin) Dm) Hin hg rfl hgb1 hgb (prodBound_nonneg _ _ _ _ _ _ (by linarith) hDm) hH0 hadm
+    (by rw [hmax]; exact hPb) hab hbb (if bit then 1 else 0) σ E hd hN hgn (by rw [hmax]; exact haD) h0 ht hM hS hkey
+  rw [hmax] at heA heB
+  rw [ha0] at heA hnA
+  rw [hb0] at heB hnB
+  have hcov := ep_covered_value N hN (glweSubSameRank N rs rbb ra) g sk σ rs hdl hdw hd hcov1 hcov2 hsk hσ0 hσ
+  have hsub := ι_valP_phase_sub N hN g.base2k rs sk g.rank rbb ra hbl hal hbw haw
+  rw [← hdeq] at hsub
+  have hane : ra ≠ [] := by intro h; rw [h] at hal; simp at hal
+  have hbne : rbb ≠ [] := by intro h; rw [h] at hbl; simp at hbl
+  have hfita := ι_valP_phase_fit N hN g.base2k rs g.size sk ra hane haw hcov1
+  have hfitb := ι_valP_phase_fit N hN g.base2k rs g.size sk rbb hbne hbw hcov1
+  rw [hal] at hfita
+  rw [hbl] at hfitb
+  unfold epValue at heA heB
+  rw [hcov, hsub, hfita] at heA
+  rw [hcov, hsub, hfitb] at heB
+  have hpow : (2 : Ks.R N) ^ (g.base2k * rs) * ((2 : Ks.R N) ^ g.base2k) ^ (g.size - rs) = (2 : Ks.R N) ^ (g.base2k * g.size) := by
+    rw [← pow_mul, ← pow_add]
+    congr 1
+    rw [← Nat.mul_add]; congr 1; omega
+  refine ⟨xa, xb, hcall, hwa, hwb, ⟨EnA, QA, hEA, hQA, hnA, ?_⟩, ⟨EnB, QB, hEB, hQB, hnB, ?_⟩⟩
+  · unfold epErr
+    cases bit with
+    | true =>
+      simp only [if_true, one_mul] at heA ⊢
+      linear_combination heA + (Ks.ι N (C02L.valP g.base2k N (Core.Ops.phase sk (Ks.mkCt g.base2k N rbb)))) * hpow
+    | false =>
+      simp only [Bool.false_eq_true, if_false, zero_mul, zero_add] at heA ⊢
+      linear_combination heA + (Ks.ι N (C02L.valP g.base2k N (Core.Ops.phase sk (Ks.mkCt g.base2k N ra)))) * hpow
+  · unfold epErr
+    cases bit with
+    | true =>
+      simp only [if_true, one_mul] at heB ⊢
+      linear_combination heB + (Ks.ι N (C02L.valP g.base2k N (Core.Ops.phase sk (Ks.mkCt g.base2k N ra)))) * hpow
+    | false =>
+      simp only [Bool.false_eq_true, if_false, zero_mul, zero_add] at heB ⊢
+      linear_combination heB + (Ks.ι N (C02L.valP g.base2k N (Core.Ops.phase sk (Ks.mkCt g.base2k N rbb)))) * hpow
+
+example : ∃ xa xb, cswap true 1 staleG.base2k ([[[1], [2], [3]], [[0], [1], [0]]] : List Col) ([[[0], [0], [1]], [[0], [0], [0]]] : List Col) staleG (zeroCols 1 2 4) (zeroCols 1 2 4) = .ok (xa, xb) ∧
+    C02L.GWF 1 (Ks.mkCt staleG.base2k 1 xa) ∧ C02L.GWF 1 (Ks.mkCt staleG.base2k 1 xb) := by
+  obtain ⟨xa, xb, h1, h2, h3, _⟩ := cswap_swaps_with_noise (N := 1) true 3 ([[[1], [2], [3]], [[0], [1], [0]]] : List Col) ([[[0], [0], [1]], [[0], [0], [0]]] : List Col) staleG (zeroCols 1 2 4) (zeroCols 1 2 4) [[1]] false 3 1
+    rfl (by decide) (by decide) (by decide) (by decide) (by decide) (by decide) (by decide) (by decide) (by decide) (by decide)
+    (by decide) (by decide)
+    (fun i => if i = 0 then 1 else Ks.ι 1 [1])
+    (fun i r => Gadget.val ((2 : Ks.R 1) ^ staleG.base2k) staleG.size (Ks.keyPhase 1 [[1]] staleG.toPMat i r)
+      - (if false then 1 else 0) * (if i = 0 then 1 else Ks.ι 1 [1]) * ((2 : Ks.R 1) ^ staleG.base2k) ^ (staleG.size - (r + 1) * staleG.dsize))
+    (by decide) (by decide) (by decide) (by decide) (by decide) (Ks.entry_length staleG.toPMat 1 rfl (by decide)) (by decide)
+    (by intro i _ r _; exact (add_sub_cancel _ _).symm)
+    (by decide) (by decide) (by decide) rfl
+    (by intro i hi; have h0 : i = 0 := by
+          have : i < 1 := hi
+          omega
+        subst h0; rfl)
+  exact ⟨xa, xb, h1, h2, h3⟩
+
 end C04
